@@ -125,6 +125,7 @@ var c15Names = []string{
 	"H15 two connections of a server whose secret provider hands out ONE key slice (with spare capacity) to every connection",
 	"H14 two connections asking for user names in spellings the configuration does not have",
 	"H13 reload introducing new command patterns while a command with pattern rules is being authorized",
+	"H19 two connections, same user, one command authorization each; the user's rules come from its own list and two groups, merged into a slice with spare capacity",
 	"H8 two connections, same user, one session authorization each",
 	"H6 cancellation concurrent with serving",
 	"H9 cancellation racing the next request of an idle connection that holds a pending session",
